@@ -32,6 +32,7 @@ def build(world):
     units = gu.mk(c13_c.units(world))
     units += [u for u in gu.mk(persistence_c.c16_units(world)) if u.name.endswith("Persistence.save")]
     units += hc.build_for(world, PROP)
+    units += [u for u in gu.model_units(world) if "Node.__init__" in u.name or "Child.__init__" in u.name]
     units += [u for u in gu.mk(persistence_c.units(world)) if "NodeSchema" in u.name]
     return units
 
